@@ -6,7 +6,7 @@
    rocq/Proofs/StreamsSpec.v. *)
 From Verif Require Import Lib.Base Model.Streams Proofs.StreamsBase Proofs.StreamsSpec
   Proofs.StreamsStdout Proofs.StreamsOrder Proofs.StreamsFiles Proofs.StreamsMisc Proofs.StreamsWriter
-  Proofs.StreamsPrefix Proofs.StreamsTrace.
+  Proofs.StreamsPrefix Proofs.StreamsTrace Proofs.StreamsReuse.
 
 (* ---------- delivered_in_order ---------- *)
 
@@ -75,6 +75,27 @@ Theorem C13_print_to_open_stream : forall E s n r ps os, amem n (st_ins s) = fal
     write_ostream E (add_log s (EvWrite (match os_kind os with KFile => WFile n | KCmd => WCmd n end) (concat ps))) n os (concat ps) = (s', os').
 Proof. exact print_to_open_stream. Qed.
 Print Assumptions C13_print_to_open_stream.
+
+(* ---------- a reused Interpreter ---------- *)
+(* however a run went and ended, its closeAll leaves no output or input stream registered *)
+Theorem C13_run_closes_everything : forall E s ops,
+  st_outs (fst (run E s ops)) = [] /\ st_ins (fst (run E s ops)) = [].
+Proof. exact run_closes_everything. Qed.
+Print Assumptions C13_run_closes_everything.
+
+(* every Execute on a reused Interpreter starts with no registered stream (closeAll closed them
+   all, resetCore forgot them all -- and forgot nothing that was still open), on the file system
+   the earlier runs left: a name is opened afresh in every run *)
+Theorem C13_every_execute_starts_clean : forall E limit progs s,
+  st_outs s = [] -> st_ins s = [] ->
+  Forall (fun s0 => st_outs s0 = [] /\ st_ins s0 = []) (starts E s limit progs) /\
+  Forall (fun sr => st_outs (fst sr) = [] /\ st_ins (fst sr) = []) (run_many E s limit progs).
+Proof. exact every_execute_starts_clean. Qed.
+Print Assumptions C13_every_execute_starts_clean.
+
+Theorem C13_reset_core_keeps_files : forall s limit, st_fs (reset_core s limit) = st_fs s.
+Proof. exact reset_core_keeps_files. Qed.
+Print Assumptions C13_reset_core_keeps_files.
 
 (* ---------- flush_before_child ---------- *)
 (* Every process (system, print | cmd, cmd | getline) starts when goawk holds
@@ -256,6 +277,17 @@ Example C13_epipe_example : forall m, In m [OsFile; Unbuf; Buf 16] ->
   rev (st_obs s) = [ORet 0; ORet 5; ORet 0; ORet (-1); ORet 3] /\ (* marker read, close = 5; marker read, fflush = -1, close = 3 *)
   st_unmod s = false.
 Proof. intros m [<- | [<- | [<- | []]]]; vm_compute; repeat split; auto. Qed.
+
+(* three runs on one Interpreter: run 1 leaves > f1 and | 10 open; run 2 opens f1 afresh (> truncates
+   again) and starts the command again; run 3 finds neither open *)
+Example C13_reused_example : forall m, In m [OsFile; Unbuf; Buf 16] ->
+  let rs := run_many (env0 m) (init_state [(1, [111; 108; 100])] None) None
+      [ [Print (DRedir RTrunc 1) [[97]]; Print (DRedir RPipe 10) [[120]]];
+        [Print (DRedir RTrunc 1) [[98]]; Print (DRedir RPipe 10) [[121]]; Close 10];
+        [Close 1; Close 10; Print (DRedir RAppend 1) [[99]]] ] in
+  map (fun sr => (fs_get (st_fs (fst sr)) 1, fs_get (st_fs (fst sr)) 3, rev (st_obs (fst sr)))) rs =
+  [ ([97], [120], []); ([98], [120; 121], [ORet 0]); ([98; 99], [120; 121], [ORet (-1); ORet (-1)]) ].
+Proof. intros m [<- | [<- | [<- | []]]]; vm_compute; reflexivity. Qed.
 
 (* the run of prog0: files, stdout, close/system results, exit status; the
    same whether Output is buffered or not *)
